@@ -336,11 +336,12 @@ func (c cfgSub) canCache() bool                     { return false }
 
 func (c cfgSub) Len(*options) (int, error) {
 	arr := c.c.fields.array()
-	if arr != nil {
-
+	if arr != nil && (len(arr) > 0 || len(c.c.fields.dict()) == 0) {
 		return len(arr), nil
 	}
 
+	// a dictionary - also one that started as an empty list and has received
+	// named settings since - is one element
 	return 1, nil
 }
 
